@@ -1078,9 +1078,13 @@ def r4_call_sites(run, w):
   if n < 2:
     raise AnalysisError("fewer than 2 call sites of pick_col_ident_list found")
   # (b) _pick_col_name builds the avoid set from the table, 'id', sibling summary tables
+  H.require(w, "useractions.UserActions._pick_col_name",
+            "useractions.UserActions._adjust_one_column_update")
+  run0 = run
   fn = H.xfn(w, "useractions.UserActions._pick_col_name", keep=KEEP)
   fi = fn.fi
   v = H.View(fn)
+  run = H.Guarded(run0, v, keep=KEEP)
   cfg = fn.cfg
   ps = fi.params()       # cls, table_rec, col_id, old_col_id, avoid_extra
   picks = [(nd, c) for (nd, c, nm) in fn.calls() if endswith(nm, "identifiers.pick_col_ident")]
@@ -1136,6 +1140,7 @@ def r4_call_sites(run, w):
   a1 = H.xfn(w, "useractions.UserActions._adjust_one_column_update", keep=KEEP)
   v1 = H.View(a1)
   aps = a1.fi.params()
+  run = H.Guarded(run0, v1, involved=tuple(aps[3:4]), keep=KEEP)
   calls = [(nd, c) for (nd, c, nm) in a1.calls() if endswith(nm, "self._pick_col_name")]
   ok = False
   if len(calls) == 1:
@@ -1159,6 +1164,7 @@ def r4_call_sites(run, w):
          "for one update of a bundle is avoided by the following ones", ok, fi=a1.fi)
   ucr = H.xfn(w, "useractions.UserActions._updateColumnRecords", keep=KEEP)
   vu = H.View(ucr)
+  run = H.Guarded(run0, vu, keep=KEEP)
   calls = [(nd, c) for (nd, c, nm) in ucr.calls()
            if endswith(nm, "self._adjust_one_column_update")]
   ok = False
@@ -1178,6 +1184,7 @@ def r4_call_sites(run, w):
          "the set of ids picked in the bundle is created once, outside the loop", ok, fi=ucr.fi)
   utr = H.xfn(w, "useractions.UserActions._updateTableRecords", keep=KEEP)
   vt = H.View(utr)
+  run = H.Guarded(run0, vt, keep=KEEP)
   cfg = utr.cfg
   picks = [(nd, c) for (nd, c, nm) in utr.calls()
            if endswith(nm, "identifiers.pick_table_ident")]
@@ -1225,6 +1232,7 @@ def r4_call_sites(run, w):
          "ids are avoided", ok, fi=utr.fi)
   dat = H.xfn(w, "useractions.UserActions.doAddTable", keep=KEEP)
   vd = H.View(dat)
+  run = run0
   ok = False
   for (nd, c, nm) in dat.calls():
     if endswith(nm, "identifiers.pick_table_ident"):
